@@ -42,3 +42,14 @@ int stranger(sqfs_writer_t *sqfs)
 {
 	return sqfs_super_write(&sqfs->super, sqfs->outfile);
 }
+
+/* K2-nosignal: a packer that handles termination signals */
+#include <signal.h>
+static volatile sig_atomic_t ctl_stop;
+static void ctl_on_signal(int s) { (void)s; ctl_stop = 1; }
+int ctl_installs_handler(void);
+int ctl_installs_handler(void)
+{
+	struct sigaction sa = { .sa_handler = ctl_on_signal };
+	return sigaction(SIGTERM, &sa, NULL);
+}
